@@ -24,6 +24,16 @@ STRENGTH = {
     "C14-m4": "missed at first; caught after the lookups-racing-toggles case",
     "C07-m1": "caught by random histories at first, missed after the generator changed, caught for good by the directed replay scenarios",
     "C05-m2": "written against the delta-counting merge that was later repaired (d18db5e): no longer applies",
+    "C02-m3": "missed at first; caught after re-subscribing held filters (generator bias + the filter-subscribed-twice scenario)",
+    "C02-m4": "missed at first; caught after links that carry channel options (me=0, ttl) used by a subscribed connection",
+    "C07-m3": "missed at first; caught after retained publishes with ttl=0",
+    "C08-m3": "missed at first; caught after the filter-subscribed-twice scenario ending in all four ways",
+    "C08-m4": "missed at first; caught after last wills with the extendable key (write permission, may not publish)",
+    "C09-m4": "missed at first; caught after malformed option lists (bare keys, empty keys / values, stray separators) against the live broker child",
+    "C10-m3": "missed at first; caught after concurrent senders through the WebSocket transport over a one-writer-at-a-time socket",
+    "C10-m4": "missed at first; caught after the wide-channel scenario on a real broker (14-20 subscribers, 60 publishes back to back)",
+    "C18-m3": "missed at first; caught after cancelling a presence watch with status:false",
+    "C18-m4": "missed at first; caught after channels whose first word is 'presence'",
     "C18-m2": "missed at first; caught after the presence-burst scenario (watcher not reading while 150 / 260 subscriptions are made)",
 }
 
